@@ -129,6 +129,9 @@ class Abstractor:
                 v = ('atom', self.canon(f'{a} == {b}'))
             return mk_not(v) if isinstance(op, ast.NotEq) else v
         if isinstance(op, (ast.In, ast.NotIn)):
+            if isinstance(r, (ast.Set, ast.Tuple, ast.List)) and len(r.elts) == 1:
+                v = self._link(l, ast.Eq(), r.elts[0])          # x in {y}  ==  x == y
+                return mk_not(v) if isinstance(op, ast.NotIn) else v
             v = ('atom', self.canon(f'{norm(l)} in {norm(r)}'))
             return mk_not(v) if isinstance(op, ast.NotIn) else v
         return ('atom', self.canon(norm(ast.Compare(left=l, ops=[op], comparators=[r]))))
